@@ -15,7 +15,7 @@
 (*    form, operands untouched, unnamed registers untouched).              *)
 (* The trace is accepted iff TLC consumes every event and bad = {}.        *)
 (***************************************************************************)
-EXTENDS DecOps, Json, TLC, IOUtils
+EXTENDS DecSqrt, Json, TLC, IOUtils
 
 DW == 19                                  \* digits per word of the real library (64-bit build)
 DB == Pow10(DW)
@@ -109,20 +109,25 @@ Adopt == [r \in DOMAIN regs \cup Named |-> IF r \in Named THEN Got(r) ELSE regs[
 IsEv(op) == l <= Len(T) /\ Ev.op = op
 
 (* a call with receiver Ev.z whose wanted outcome is w *)
-StepX(w, tags, extra) ==
+(* mismatches are stored as <<event, property, kind, deviation>>; deviation = "" unless a NAMED deviation of *)
+(* the specification (a recorded finding, see known_findings.json) reproduces the observed result        *)
+Tag(S, dev) == {<<t[1], t[2], t[3], dev>> : t \in S}
+
+StepDev(w, tags, extra, dev) ==
   /\ l' = l + 1
-  /\ bad' = bad \cup MisZ(w) \cup Common({Ev.z}) \cup extra
+  /\ bad' = bad \cup Tag(MisZ(w) \cup extra, dev) \cup Tag(Common({Ev.z}), "")
   /\ cov' = Bump({Ev.op} \cup tags)
   /\ regs' = Adopt
   /\ dgs' = Ev.dg
 
+StepX(w, tags, extra) == StepDev(w, tags, extra, "")
 Step(w, tags) == StepX(w, tags, {})
 
 (* an observer: no register may change; ok is the comparison of the logged result with the spec *)
 Observe(ok, pid, tags) ==
   /\ l' = l + 1
-  /\ bad' = bad \cup (IF Ev.out # "ok" THEN {<<l, "C04", "panic">>} ELSE IF ok THEN {} ELSE {<<l, pid, "ret">>})
-                \cup Common({})
+  /\ bad' = bad \cup Tag((IF Ev.out # "ok" THEN {<<l, "C04", "panic">>} ELSE IF ok THEN {} ELSE {<<l, pid, "ret">>})
+                           \cup Common({}), "")
   /\ cov' = Bump({Ev.op} \cup tags)
   /\ regs' = Adopt
   /\ dgs' = Ev.dg
@@ -139,14 +144,14 @@ TReset ==
   /\ l' = l + 1
   /\ regs' = [r \in Named |-> Got(r)]
   /\ dgs' = Ev.dg
-  /\ bad' = bad \cup (IF \A r \in Named : Canonical(Ev.post[r]) /\ Got(r) = ZeroValue THEN {} ELSE {<<l, "C08", "zerovalue">>})
+  /\ bad' = bad \cup Tag(IF \A r \in Named : Canonical(Ev.post[r]) /\ Got(r) = ZeroValue THEN {} ELSE {<<l, "C08", "zerovalue">>}, "")
   /\ cov' = Bump({"Reset"})
 
 (* set-up pseudo-operation of the drivers: the specification adopts whatever (canonical) value results *)
 TLoad ==
   /\ IsEv("Load")
   /\ l' = l + 1
-  /\ bad' = bad \cup (IF Ev.out # "ok" THEN {<<l, "C04", "panic">>} ELSE {}) \cup Common({Ev.z})
+  /\ bad' = bad \cup Tag((IF Ev.out # "ok" THEN {<<l, "C04", "panic">>} ELSE {}) \cup Common({Ev.z}), "")
   /\ cov' = Bump({"Load"})
   /\ regs' = Adopt
   /\ dgs' = Ev.dg
@@ -159,13 +164,48 @@ TQuo ==
   /\ LET z == Pre(Ev.z)  x == Pre(Ev.x)  y == Pre(Ev.y)
          w == OpQuo(z, x, y)
          \* declarative double check on the OBSERVED quotient (cross-multiplication only, no division)
-         decl == IF x.form = "finite" /\ y.form = "finite" /\ Ev.out = "ok" /\ Canonical(Ev.post[Ev.z])
+         decl == IF x.form = "finite" /\ y.form = "finite" /\ Ev.out = "ok" /\ Canonical(Ev.post[Ev.z]) /\ Got(Ev.z).prec >= 1
                  THEN LET g == Got(Ev.z)
-                      IN IF g.prec >= 1 /\ ~CorrectlyRounded(x.neg # y.neg, x.dig, y.dig, ISub(CoefExp(x), CoefExp(y)), g.prec, g.mode, g)
-                         THEN {<<l, "C01", "declarative">>} ELSE {}
+                          e == ISub(CoefExp(x), CoefExp(y))
+                      IN (IF CorrectValue(x.neg # y.neg, x.dig, y.dig, e, g.prec, g.mode, g) THEN {} ELSE {<<l, "C01", "declarative">>})
+                         \cup (IF AccTruthful(x.neg # y.neg, x.dig, y.dig, e, g.prec, g) THEN {} ELSE {<<l, "C02", "declarative">>})
                  ELSE {}
      IN StepX(w, FormTag2 \cup ModeTag \cup RoundTags(w), decl)
-TFMA == IsEv("FMA") /\ LET w == OpFMA(Pre(Ev.z), Pre(Ev.x), Pre(Ev.y), Pre(Ev.u)) IN Step(w, ModeTag \cup RoundTags(w))
+(* Recorded finding D17 (known_findings.json): when the exponent of the exact PRODUCT leaves the int32 range the *)
+(* implementation flushes the product to an infinity or a zero before the addition.  The deviation is named and   *)
+(* exact: the observed result must be precisely Add(flushed product, u).                                          *)
+DevFMAProductRange(z, x, y, u, g) ==
+  /\ x.form = "finite" /\ y.form = "finite" /\ u.form = "finite" /\ Ev.out = "ok"
+  /\ LET E0 == IAddInt(IAdd(CoefExp(x), CoefExp(y)), MagOf(Mul(x.dig, y.dig), One))
+         p  == IF z.prec # 0 THEN z.prec ELSE MaxI(MaxI(x.prec, y.prec), u.prec)
+         zz == MkDec("zero", FALSE, Zero, IZero, p, z.mode, Exact)
+         fl == IF IGt(E0, MaxExp) THEN MkDec("inf", x.neg # y.neg, Zero, IZero, p, z.mode, Exact)
+               ELSE MkDec("zero", x.neg # y.neg, Zero, IZero, p, z.mode, Exact)
+     IN /\ (IGt(E0, MaxExp) \/ ILt(E0, MinExp))
+        /\ LET d == OpAdd(zz, fl, u).d IN SameValue(g, d) /\ g.acc = d.acc
+
+TFMA ==
+  /\ IsEv("FMA")
+  /\ LET z == Pre(Ev.z)  x == Pre(Ev.x)  y == Pre(Ev.y)  u == Pre(Ev.u)
+         w == OpFMA(z, x, y, u)
+         dev == IF MisZ(w) # {} /\ DevFMAProductRange(z, x, y, u, Got(Ev.z)) THEN "Dev_FMA_ProductRange" ELSE ""
+         ftag == {"FMA:" \o x.form \o "," \o y.form \o "," \o u.form} \cup
+                 (IF w.out = "ok" /\ x.form = "finite" /\ y.form = "finite" /\ u.form = "finite"
+                  THEN LET m == MulThenAdd(z, x, y, u)
+                       IN IF m.out = "ok" /\ SameValue(m.d, w.d) /\ m.d.acc = w.d.acc THEN {"FMA:same-as-mul-add"} ELSE {"FMA:differs-from-mul-add"}
+                  ELSE {})
+     IN StepDev(w, ModeTag \cup RoundTags(w) \cup ftag, {}, dev)
+TSqrt ==
+  /\ IsEv("Sqrt")
+  /\ LET z == Pre(Ev.z)  x == Pre(Ev.x)
+         w == OpSqrt(z, x)
+         \* declarative double check on the OBSERVED root (squaring only)
+         decl == IF x.form = "finite" /\ ~x.neg /\ Ev.out = "ok" /\ Canonical(Ev.post[Ev.z]) /\ Got(Ev.z).prec >= 1
+                    /\ Got(Ev.z).form = "finite" /\ MisZ(w) = {}
+                 THEN LET g == Got(Ev.z)
+                      IN IF SqrtOK(x.dig, CoefExp(x), g.prec, g.mode, g) THEN {} ELSE {<<l, "C05", "declarative">>}
+                 ELSE {}
+     IN StepX(w, ModeTag \cup RoundTags(w) \cup {"Sqrt:" \o x.form}, decl)
 TNeg == IsEv("Neg") /\ Step(OpNeg(Pre(Ev.z), Pre(Ev.x)), ModeTag)
 TAbs == IsEv("Abs") /\ Step(OpAbs(Pre(Ev.z), Pre(Ev.x)), ModeTag)
 TSet == IsEv("Set") /\ LET w == OpSet(Pre(Ev.z), Pre(Ev.x)) IN Step(w, ModeTag \cup RoundTags(w))
@@ -199,7 +239,7 @@ TPreds ==
                 /\ r.signbit = x.neg /\ r.isinf = (x.form = "inf") /\ r.iszero = (x.form = "zero")
                 /\ r.prec = x.prec /\ r.mode = x.mode /\ r.acc = x.acc, "C16", {})
 
-CoreNext == TReset \/ TLoad \/ TAdd \/ TSub \/ TMul \/ TQuo \/ TFMA \/ TNeg \/ TAbs \/ TSet \/ TCopy \/ TSetPrec \/ TSetMode
+CoreNext == TReset \/ TLoad \/ TAdd \/ TSub \/ TMul \/ TQuo \/ TFMA \/ TSqrt \/ TNeg \/ TAbs \/ TSet \/ TCopy \/ TSetPrec \/ TSetMode
             \/ TSetInf \/ TNew \/ TSetInt64 \/ TSetUint64 \/ TNewDecimal \/ TSetMantExp \/ TMantExp \/ TCmp \/ TPreds
 
 TraceInit == l = 1 /\ regs = <<>> /\ dgs = <<>> /\ bad = {} /\ cov = <<>>
